@@ -15,7 +15,7 @@ type Long int64
 var _ objecttypes.Value = Long(0)
 
 func MapLong(lexicalForm string) (Long, error) {
-	vInt64, err := strconv.ParseInt(xsdutil.WhiteSpaceCollapse(lexicalForm), 10, 16)
+	vInt64, err := strconv.ParseInt(xsdutil.WhiteSpaceCollapse(lexicalForm), 10, 64)
 	if err != nil {
 		return Long(0), fmt.Errorf("%w: %v", rdf.ErrLiteralLexicalFormNotValid, err)
 	}
